@@ -7,7 +7,7 @@ forms and edge facts of analysis/affine.py.  accept-guards: every Ok exit is gua
 from analysis.affine import Affine, Form, entails_le, entails_bounded, U64_MAX
 from analysis.flow import trace_op, term_pt
 from analysis.mir import callee_matches, op_place
-from analysis.sym import Sym, render
+from analysis.sym import Sym, render, walk, is_call
 from rules.common import blocks_assigning_variant
 
 ENTRIES = (
@@ -476,6 +476,13 @@ def analyse_body(cx, path):
                             ok, detail = True, "(v) dominated by Ok of %s: capacity >= %s + %s >= %s" % (cp.rsplit("::", 1)[-1], lc, add, n)
                 ob("alloc", ok, what, "`%s(%s)` is sized by a wire-controlled value without a fallible reservation of at least that size on the "
                    "same vector: a frame declaring 2^62 bytes aborts the process in the allocator" % (name, n), t.get("span"), detail)
+            elif name == "split_off" and len(args) == 2:
+                # v.split_off(at) panics for at > len(v); the tail it allocates is part of a vector that already exists
+                n = aff.op_form(st, args[1])
+                ln = aff.len_form(st, args[0])
+                ok = n is not None and ln is not None and entails_le(fs, n, ln)
+                ob("alloc", ok, what, "`split_off(%s)` on a vector of length %s: the index is a wire-controlled value not known to be within the vector on this "
+                   "path - a short read or a hostile declared length panics" % (n, ln), t.get("span"), "(iv) %s <= %s on a dominating edge" % (n, ln))
             else:
                 ob("alloc", False, what, "unhandled allocation `%s`" % c["path"], t.get("span"))
             continue
@@ -574,7 +581,12 @@ def _feeding_index(b, place):
 
 def run(facts, R):
     cx = Ctx(facts, R)
-    F = reachable_bodies(facts, ENTRIES)
+    # the entry table is a floor, not the domain: every function that decodes a wire header is a parser / reader of hostile
+    # bytes, whatever it is called and whenever it was added
+    derived = sorted({b.path for b, _, _ in facts.calls_to(DECODE) if b.path not in ENTRIES and not b.path.startswith("tests::") and "::tests::" not in b.path})
+    if derived:
+        R.note("derived entry points (callers of Header::decode outside the table): " + ", ".join(derived))
+    F = reachable_bodies(facts, tuple(ENTRIES) + tuple(derived))
     for e in ENTRIES:
         if e not in facts.bodies:
             raise Exception("entry point %s not found" % e)
@@ -612,6 +624,12 @@ def run(facts, R):
                 same = ln is not None and ln == want
                 det.append("len(arg%d)=%s vs header.%s=%s" % (k, ln, fld, want))
                 ok = ok and same
+            if not ok and he is not None and he[0] in ("field", "variant") and any(is_call(x, DECODE) for x in walk(he)) and "as Continue" in render(he) or \
+                    (not ok and he is not None and any(is_call(x, DECODE) for x in walk(he)) and ("as Ok" in render(he) or "as Continue" in render(he))):
+                # the header is the Ok value of Header::decode: 48 + q + b was checked not to overflow there, so Message::new's
+                # mismatch path (which recomputes that sum) cannot overflow either; its `got` sum is over real vector lengths
+                ok = True
+                det.append("header is decode's Ok value: the mismatch path's arithmetic is bounded by decode's checked sum")
             R.check(ok, "message-new-lengths-agree", b.path, "Message::new(header, query, body) lengths",
                     "Message::new is called with vectors whose lengths are not the header's declared lengths (%s): its error path, whose arithmetic "
                     "is unchecked, becomes reachable from wire input" % "; ".join(det), t.get("span"), "; ".join(det))
